@@ -7,9 +7,9 @@ Strengthens `Props/C09.lean` (whose statements are unchanged):
 
 * A. `C09_entry_substring` / `C09_relation_substring` only said `e.text <:+: s`. What holds is an exact
   frame: `s = pre ++ e.text ++ post`, where `pre` and `post` consist of separator characters only
-  (space, tab, CR, LF, comma), and `e.text` starts with an identifier character — so `pre` is exactly the
-  longest separator prefix of `s` (`C09_entry_frame`, `C09_entry_pre_unique`, tree level:
-  `C09_entry_tree_frame`). For `Relation::from_str`: the ENTRY is the RELATION followed by white space /
+  (space, tab, CR, LF, comma), `e.text` starts with an identifier character — so `pre` is exactly the
+  longest separator prefix of `s` — and `post` is empty or `white space / LF, ',', separators`
+  (`C09_entry_frame`, `C09_entry_pre_unique`, tree level: `C09_entry_tree_frame`). For `Relation::from_str`: the ENTRY is the RELATION followed by white space /
   line feeds `w` only, `s = pre ++ r.text ++ w ++ post`, and `w` and `post` are not both non-empty
   (`C09_relation_frame`).
 * B. converses: `Entry::from_str` is `Ok` exactly when `Relations::from_str` is `Ok` and the root has
@@ -40,7 +40,7 @@ theorem entry_core (s : Str) (e : RNode) (h : readEntry s = .ok e) :
     ∃ root a b t r, readStrict s = .ok root ∧ root = Node.node .ROOT (a ++ e :: b) ∧
       (∀ n ∈ a, isSepTok n = true) ∧ (∀ n ∈ b, isSepTok n = true) ∧ t.1 = Kind.IDENT ∧
       e = Node.node .ENTRY (entryLoop (t :: r)).nodes ∧ (entryLoop (t :: r)).errs = [] ∧
-      ((entryLoop (t :: r)).rest = [] → b = []) := by
+      ((entryLoop (t :: r)).rest = [] → b = []) ∧ Follow b := by
   obtain ⟨root, hr, he⟩ := readEntry_ok h
   obtain ⟨herr, hroot⟩ := readStrict_ok hr
   simp only [parse, parseTokens] at herr hroot
@@ -54,9 +54,9 @@ theorem entry_core (s : Str) (e : RNode) (h : readEntry s = .ok e) :
         ((skipWs (lex s)).nodes ++ (rootLoop false (skipWs (lex s)).rest).nodes) := by rw [he]; simp
     exact (List.mem_filter.mp this).2
   obtain ⟨hsa, hrest⟩ := RootShape.split hshape hab ha
-  rcases RootShape.cons_inv hrest with ⟨h1, _⟩ | ⟨t, r, ht, hE, hee, hlast, hbs⟩
+  rcases RootShape.cons_inv hrest with ⟨h1, _⟩ | ⟨t, r, ht, hE, hee, hlast, hfol, hbs⟩
   · rw [isSepTok_not_node h1] at hpe; cases hpe
-  · exact ⟨_, a, b, t, r, hr, by rw [hab], hsa, hbs.all_sep hb, ht, hE, hee, hlast⟩
+  · exact ⟨_, a, b, t, r, hr, by rw [hab], hsa, hbs.all_sep hb, ht, hE, hee, hlast, hfol⟩
 
 /-- every token below a child of the strict reader's root is a token of `lex s` -/
 theorem leaves_good {s root} (hr : readStrict s = .ok root) {n : RNode} (hn : n ∈ root.children) :
@@ -75,6 +75,25 @@ theorem seps_text {s root} (hr : readStrict s = .ok root) {a : List RNode}
   obtain ⟨n, hn, hcn⟩ := mem_textList hc
   exact sepTok_text (ha n hn) (leaves_good hr (hsub n hn)) c hcn
 
+theorem wss_text {s root} (hr : readStrict s = .ok root) {a : List RNode}
+    (hsub : ∀ n ∈ a, n ∈ root.children) (ha : ∀ n ∈ a, isWsTok n = true) :
+    ∀ c ∈ textList a, isWs c = true ∨ c = '\n' := by
+  intro c hc
+  obtain ⟨n, hn, hcn⟩ := mem_textList hc
+  exact wsTok_text (ha n hn) (leaves_good hr (hsub n hn)) c hcn
+
+/-- text of what follows the ENTRY: nothing, or white space / line feeds and then a comma -/
+theorem follow_text {s root} (hr : readStrict s = .ok root) {b : List RNode}
+    (hsub : ∀ n ∈ b, n ∈ root.children) (hf : Follow b) :
+    textList b = [] ∨ ∃ w rest, textList b = w ++ ',' :: rest ∧ ∀ c ∈ w, isWs c = true ∨ c = '\n' := by
+  rcases hf with rfl | ⟨w, c, more, rfl, hw, hc⟩
+  · left; simp
+  · right
+    have hg : TokGood c := leaves_good hr (hsub (tk c) (by simp)) c (by simp)
+    refine ⟨textList w, textList more, ?_, wss_text hr (fun n hn => hsub n (by simp [hn])) hw⟩
+    have := hg.comma hc
+    simp [this]
+
 /-- tree-level frame of `Entry::from_str`: the root of the strict reader is
     `separator tokens, the ENTRY, separator tokens` (WHITESPACE / NEWLINE / COMMA) -/
 theorem C09_entry_tree_frame (s : Str) (e : RNode) (h : readEntry s = .ok e) :
@@ -92,11 +111,14 @@ theorem entry_text_head (t : Tok) (r : List Tok) (ht : t.1 = .IDENT) :
 
 /-- **Exact frame of `Entry::from_str`.** When it accepts `s`, the entry's text is `s` minus a prefix and
     a suffix that consist of separator characters only (space, tab, CR, LF, comma); the entry's text is not
-    empty and starts with an identifier character (which is not a separator). -/
+    empty and starts with an identifier character (which is not a separator); the suffix is empty or is
+    white space / line feeds, a comma, and more separators (an entry ends at end of input or at a comma).
+    `pre` is arbitrary among separator strings (",\n a" is accepted). -/
 theorem C09_entry_frame (s : Str) (e : RNode) (h : readEntry s = .ok e) :
     ∃ pre post, s = pre ++ e.text ++ post ∧ (∀ c ∈ pre, sep c = true) ∧ (∀ c ∈ post, sep c = true) ∧
-      e.text ≠ [] ∧ ∃ c rest, e.text = c :: rest ∧ isIdentChar c = true := by
-  obtain ⟨root, a, b, t, r, hr, hroot, ha, hb, ht, hE, _, _⟩ := entry_core s e h
+      e.text ≠ [] ∧ (∃ c rest, e.text = c :: rest ∧ isIdentChar c = true) ∧
+      (post = [] ∨ ∃ w rest, post = w ++ ',' :: rest ∧ ∀ c ∈ w, isWs c = true ∨ c = '\n') := by
+  obtain ⟨root, a, b, t, r, hr, hroot, ha, hb, ht, hE, _, _, hfol⟩ := entry_core s e h
   have hs := C09_strict_roundtrip s root hr
   have hch : root.children = a ++ e :: b := by rw [hroot]; rfl
   have hhead : ∃ c rest, e.text = c :: rest ∧ isIdentChar c = true := by
@@ -108,7 +130,8 @@ theorem C09_entry_frame (s : Str) (e : RNode) (h : readEntry s = .ok e) :
     obtain ⟨c, rest, hc, hi⟩ := hg.ident ht
     refine ⟨c, rest ++ (textList X ++ textList Y), ?_, hi⟩
     rw [hE, hXY]; simp [hc]
-  refine ⟨textList a, textList b, ?_, ?_, ?_, ?_, hhead⟩
+  refine ⟨textList a, textList b, ?_, ?_, ?_, ?_, hhead,
+    follow_text hr (fun n hn => by rw [hch]; simp [hn]) hfol⟩
   · rw [← hs, hroot]; simp
   · exact seps_text hr (fun n hn => by rw [hch]; simp [hn]) ha
   · exact seps_text hr (fun n hn => by rw [hch]; simp [hn]) hb
@@ -126,7 +149,7 @@ theorem takeWhile_frame {α} (p : α → Bool) (pre : List α) (c : α) (rest : 
     entry's text starts right after it -/
 theorem C09_entry_pre_unique (s : Str) (e : RNode) (h : readEntry s = .ok e) :
     ∃ post, s = s.takeWhile sep ++ e.text ++ post ∧ ∀ c ∈ post, sep c = true := by
-  obtain ⟨pre, post, hs, hpre, hpost, _, c, rest, hc, hi⟩ := C09_entry_frame s e h
+  obtain ⟨pre, post, hs, hpre, hpost, _, ⟨c, rest, hc, hi⟩, _⟩ := C09_entry_frame s e h
   have : s.takeWhile sep = pre := by
     conv => lhs; rw [hs, hc]
     simp only [List.append_assoc, List.cons_append]
@@ -137,13 +160,15 @@ theorem C09_entry_pre_unique (s : Str) (e : RNode) (h : readEntry s = .ok e) :
     RELATION followed by white space / line feeds `w` only (`skip_ws()` at end of input happens inside the
     ENTRY); `s = pre ++ r.text ++ w ++ post` with `pre`, `post` separator characters only; `w` and `post`
     are not both non-empty (`w ≠ []` only when the entry ends at end of input); the relation's text starts
-    with an identifier character. -/
+    with an identifier character; `post` is empty or white space / line feeds, a comma, more separators.
+    No `|` can occur in `w` or `post`. -/
 theorem C09_relation_frame (s : Str) (r : RNode) (h : readRelation s = .ok r) :
     ∃ e pre w post, readEntry s = .ok e ∧ e.text = r.text ++ w ∧ s = pre ++ r.text ++ w ++ post ∧
       (∀ c ∈ pre, sep c = true) ∧ (∀ c ∈ w, isWs c = true ∨ c = '\n') ∧ (∀ c ∈ post, sep c = true) ∧
-      (w = [] ∨ post = []) ∧ r.text ≠ [] ∧ ∃ c rest, r.text = c :: rest ∧ isIdentChar c = true := by
+      (w = [] ∨ post = []) ∧ r.text ≠ [] ∧ (∃ c rest, r.text = c :: rest ∧ isIdentChar c = true) ∧
+      (post = [] ∨ ∃ w' rest, post = w' ++ ',' :: rest ∧ ∀ c ∈ w', isWs c = true ∨ c = '\n') := by
   obtain ⟨e, he, hrel⟩ := readRelation_ok h
-  obtain ⟨root, a, b, t, ts, hr, hroot, ha, hb, ht, hE, hee, hlast⟩ := entry_core s e he
+  obtain ⟨root, a, b, t, ts, hr, hroot, ha, hb, ht, hE, hee, hlast, hfol⟩ := entry_core s e he
   have hs := C09_strict_roundtrip s root hr
   have hch : root.children = a ++ e :: b := by rw [hroot]; rfl
   have hmem : e ∈ root.children := by rw [hch]; simp
@@ -163,7 +188,8 @@ theorem C09_relation_frame (s : Str) (r : RNode) (h : readRelation s = .ok r) :
     obtain ⟨c, rest, hc, hi⟩ := hg.ident ht
     refine ⟨c, rest ++ textList X, ?_, hi⟩
     rw [hXY.1]; simp [hc]
-  refine ⟨e, textList a, textList wn, textList b, he, hEt, ?_, ?_, ?_, ?_, ?_, ?_, hhead⟩
+  refine ⟨e, textList a, textList wn, textList b, he, hEt, ?_, ?_, ?_, ?_, ?_, ?_, hhead,
+    follow_text hr (fun n hn => by rw [hch]; simp [hn]) hfol⟩
   · rw [← hs, hroot]; simp [hEt]
   · exact seps_text hr (fun n hn => by rw [hch]; simp [hn]) ha
   · intro c hc
@@ -270,7 +296,7 @@ theorem C09_relation_error_iff (s : Str) (msg : String) :
 theorem C09_relation_tree_frame (s : Str) (r : RNode) (h : readRelation s = .ok r) :
     ∃ e w, readEntry s = .ok e ∧ e = Node.node .ENTRY (r :: w) ∧ ∀ n ∈ w, isWsTok n = true := by
   obtain ⟨e, he, hrel⟩ := readRelation_ok h
-  obtain ⟨root, a, b, t, ts, hr, hroot, ha, hb, ht, hE, hee, hlast⟩ := entry_core s e he
+  obtain ⟨root, a, b, t, ts, hr, hroot, ha, hb, ht, hE, hee, hlast, hfol⟩ := entry_core s e he
   rw [hE] at hrel
   simp only [childNodes, Node.children] at hrel
   obtain ⟨wn, hnodes, hwn, _⟩ := entryLoop_single (t :: ts) r hee hrel
